@@ -75,6 +75,18 @@ Proof.
 Qed.
 Print Assumptions C16_no_panic_compile_refuted.
 
+(* ---- execext.ExpandLiteral (task dir, include location and dir): total with the length check ---- *)
+Theorem C16_expand_literal_total :
+  forall v o str, g_expand_literal_len v = true -> forall s, expand_literal v o str <> Panic s.
+Proof. exact expand_literal_total. Qed.
+Print Assumptions C16_expand_literal_total.
+
+Theorem C16_expand_literal_refuted :
+  forall v o str, g_expand_literal_len v = false -> is_empty str = false -> o_words o str = Some 0 ->
+    expand_literal v o str = Panic SExpandLiteral.
+Proof. exact refuted_expand_literal. Qed.
+Print Assumptions C16_expand_literal_refuted.
+
 (* ---- the snippet of a decode error ---- *)
 Theorem C16_snippet_in_bounds :
   forall line pad n_raw n_hl, exists lo hi,
